@@ -2623,16 +2623,28 @@ def _one_info_keyword_arg(self: fst.FST, static: onestatic, idx: int | None, fie
 def _one_info_alias_asname(self: fst.FST, static: onestatic, idx: int | None, field: str) -> oneinfo:
     ast = self.a
     ln, col, end_ln, end_col = self.loc
-    loc_insdel = fstloc(ln, col + len(ast.name), end_ln, end_col)
 
-    if (asname := ast.asname) is None:
+    if ast.asname is None:  # alias ends where the name ends (name may be written with whitespace around its dots)
+        loc_insdel = fstloc(end_ln, end_col, end_ln, end_col)
         loc_prim = None
 
-    else:
+    else:  # walk the fragments, the `as` keyword is always a fragment of its own and is never part of the name
         lines = self.root._lines
-        ln, col = next_find(lines, ln, col, end_ln, end_col, 'as')  # skip the 'as'
-        ln, col = next_find(lines, ln, col + 2, end_ln, end_col, asname)  # must be there
-        loc_prim = fstloc(ln, col, ln, col + len(asname))
+        name_end_ln = ln
+        name_end_col = col
+
+        while frag := next_frag(lines, ln, col, end_ln, end_col):  # must find 'as'
+            ln, col, src = frag
+
+            if src == 'as':
+                break
+
+            name_end_ln = ln
+            name_end_col = col = col + len(src)
+
+        ln, col, src = next_frag(lines, ln, col + 2, end_ln, end_col)  # asname, must be there
+        loc_insdel = fstloc(name_end_ln, name_end_col, end_ln, end_col)
+        loc_prim = fstloc(ln, col, ln, col + len(src))
 
     return oneinfo(' as ', loc_insdel, loc_prim)
 
